@@ -16,6 +16,8 @@ type c02cfg struct {
 	X int8
 	// only the defaults ever set this one
 	Keep map[string]int8
+	// an empty (non-nil) map held in an interface, also only set by the defaults
+	Any interface{}
 }
 
 type c02watch struct {
@@ -35,7 +37,7 @@ func (s *c02watch) Watch(ctx context.Context, t *Type, wa WatchArgs) error {
 // with the defaults, the source values or any other version.
 func c02history(k int) {
 	mk := func() *c02cfg {
-		return &c02cfg{M: map[string]int8{"d": 1}, S: make([]int16, 1, 3), P: &c01sub{V: 5, W: "p"}, X: 3, Keep: map[string]int8{"k": 1}}
+		return &c02cfg{M: map[string]int8{"d": 1}, S: make([]int16, 1, 3), P: &c01sub{V: 5, W: "p"}, X: 3, Keep: map[string]int8{"k": 1}, Any: map[string]int8{}}
 	}
 	def, def0 := mk(), mk()
 	ot := reflect.TypeOf(def).Elem()
@@ -112,6 +114,9 @@ func c02history(k int) {
 			cur.P.V = 77
 		}
 		cur.N.V = 66
+		if am, isMap := cur.Any.(map[string]int8); isMap && am != nil {
+			am["scribble"] = 1
+		}
 	}
 	check("initial", func(ov reflect.Value) {
 		if setP0 {
